@@ -223,6 +223,22 @@ def justifiedB (rows : List (Nat × LS)) (tokens : List Mutex) (a : Access) : Bo
   (realLocks tokens a).isEmpty ||
     ((rows.any fun r => r.1 == a.site) && (rows.all fun r => r.1 != a.site || subB (realLocks tokens a) r.2))
 
+/-- the skeleton numbers a command calls -/
+def targets : Cmd → List Nat
+  | .call f => [f]
+  | .icall f => [f]
+  | .seq a b => targets a ++ targets b
+  | .alt a b => targets a ++ targets b
+  | .loop a => targets a
+  | .block a => targets a
+  | .spawn a => targets a
+  | _ => []
+
+/-- the bodies are numbered 0, 1, 2, … in order, and every call names one of them: no call is dangling (a dangling
+    call would have no run at all and silently remove behaviours from the semantics) -/
+def indexedB (fs : List (Nat × Cmd)) : Bool := fs.zipIdx.all fun q => q.1.1 == q.2
+def targetsOkB (fs : List (Nat × Cmd)) : Bool := fs.all fun p => (targets p.2).all fun f => decide (f < fs.length)
+
 /-- may a skeleton with this name inherit locks from its callers?  Only a function literal (`outer$n`: entered where it
     is written / where the parameter it is passed for is called) or a function whose own name (last segment) is not
     exported; an exported function or method can be entered from other packages with nothing held. -/
